@@ -1297,6 +1297,71 @@ func (s *searcher) concurrent(g *gen, workers, iters int) {
 	s.evals += workers * iters * 6
 }
 
+// ---------------------------------------------------------------- field-length family (deterministic)
+
+var familyLens = []int{0, 1, 2, 3, 4, 7, 8, 15, 16, 19, 20, 21, 31, 32, 33, 63, 64, 65, 66}
+
+// lenFamily: for every length-delimited field of the message (and of its nested messages, two levels deep) the
+// same message with that field PRESENT at each length of familyLens and at its own size-1 / size / size+1.
+// Exercises the converters' per-length branches (BytesToSign, BytesToHash cropping/padding, time decoding,
+// SetBytes) and their log-and-continue paths.
+func lenFamily(kind string, b []byte, depth int, fill func(n int) []byte) [][]byte {
+	fs := split(b)
+	var out [][]byte
+	seenTag := map[uint64]bool{}
+	for k := range fs {
+		if fs[k].wire != 2 {
+			continue
+		}
+		nk, isMsg := nested[kind][fs[k].tag]
+		if isMsg && depth < 2 && !seenTag[fs[k].tag] { // first element only of a repeated nested message
+			for _, sub := range lenFamily(nk, fs[k].payload, depth+1, fill) {
+				c := append([]field{}, fs...)
+				c[k].payload = sub
+				out = append(out, join(c))
+			}
+		}
+		if seenTag[fs[k].tag] {
+			continue // one representative of a repeated field
+		}
+		seenTag[fs[k].tag] = true
+		lens := append([]int{}, familyLens...)
+		own := len(fs[k].payload)
+		for _, l := range []int{own - 1, own, own + 1} {
+			if l >= 0 {
+				lens = append(lens, l)
+			}
+		}
+		for _, l := range lens {
+			if isMsg && l > 4 {
+				continue // a nested message replaced by junk: only the short ones are interesting
+			}
+			c := append([]field{}, fs...)
+			c[k].payload = fill(l)
+			out = append(out, join(c))
+		}
+	}
+	return out
+}
+
+// richest picks the message with the most top-level fields (so the family covers every optional field).
+func richest(msgs [][]byte) []byte {
+	var best []byte
+	n := -1
+	for i, m := range msgs {
+		if i >= 40 {
+			break
+		}
+		if len(m) > 3000 {
+			continue // keep the family's op lines short
+		}
+		if c := len(split(m)); c > n {
+			best, n = m, c
+		}
+	}
+	return best
+}
+
 // ---------------------------------------------------------------- corpus
 
 func runCorpus(o *hx.Out) int {
@@ -1386,6 +1451,32 @@ func corr(a map[string]string) {
 		})
 	}
 
+	// present-with-length-L family for every bytes/string field of one rich message of each kind (deterministic, runs early)
+	{
+		fg := &gen{r: hx.NewRng(hx.SeedFromEnv() ^ 0xf1e1d)}
+		fill := func(n int) []byte { return fg.r.Bytes(n) }
+		for _, k := range []string{"t", "s", "h", "b", "g", "m", "G"} {
+			var cands [][]byte
+			for i := 0; i < 12; i++ {
+				switch k {
+				case "G":
+					if gb, err := proto.Marshal(&middleware_pb.GroupSlice{Groups: []*middleware_pb.Group{types.GroupToPb(fg.group(true))}}); err == nil {
+						cands = append(cands, gb)
+					}
+				default:
+					if mb := fg.marshalKind(k); mb != nil {
+						cands = append(cands, append([]byte{}, mb...))
+					}
+				}
+			}
+			kindOp := map[string]string{"t": "tu", "s": "su", "h": "hu", "b": "bu", "g": "gu", "m": "mu", "G": "Gu"}[k]
+			if m := richest(cands); m != nil {
+				for _, v := range lenFamily(k, m, 0, fill) {
+					doParse(out, kindOp, v)
+				}
+			}
+		}
+	}
 	// JSON strings on their own: json.Marshal(string) and json.Unmarshal into a string
 	for i := 0; i < 250*scale; i++ {
 		var sb []byte
@@ -1936,6 +2027,28 @@ func search(a map[string]string) {
 	for _, k := range []string{"tu", "hu", "su", "bu", "gu", "mu", "Gu"} {
 		for x := 0; x < 256; x++ {
 			s.checkParse(k, []byte{byte(x)})
+		}
+	}
+	{
+		fg := &gen{r: hx.NewRng(hx.SeedFromEnv() ^ 0xf1e1d)}
+		fill := func(n int) []byte { return fg.r.Bytes(n) }
+		for _, k := range []string{"t", "s", "h", "b", "g", "m", "G"} {
+			var cands [][]byte
+			for i := 0; i < 12; i++ {
+				if k == "G" {
+					if gb, err := proto.Marshal(&middleware_pb.GroupSlice{Groups: []*middleware_pb.Group{types.GroupToPb(fg.group(true))}}); err == nil {
+						cands = append(cands, gb)
+					}
+				} else if mb := fg.marshalKind(k); mb != nil {
+					cands = append(cands, append([]byte{}, mb...))
+				}
+			}
+			kindOp := map[string]string{"t": "tu", "s": "su", "h": "hu", "b": "bu", "g": "gu", "m": "mu", "G": "Gu"}[k]
+			if m := richest(cands); m != nil {
+				for _, v := range lenFamily(k, m, 0, fill) {
+					s.checkParse(kindOp, v)
+				}
+			}
 		}
 	}
 	s.retention(g, 8)
